@@ -280,7 +280,7 @@ theorem accepts_iff (E : XExt) : ∀ (fs : List DataFile),
 /-- **late_corruption_never_installed.** Whatever happened to the files and sidecars since the
 store was created — any corruption, before or after the one-time verification, any verdict
 cached — if `Open` produces a stream and the receiver accepts it, then every transferred
-file whose sidecar records a CRC has exactly that CRC; so (no collision) it is byte for
+file whose sidecar records a CRC has exactly that CRC; so it is, or collides under the CRC with, byte for
 byte the content `orig` that the record was computed from. Altered bytes are not installed
 or restored. -/
 theorem late_corruption_never_installed (E : XExt) (s : Store)
@@ -522,5 +522,19 @@ example :
      let s2 : Store := { s1 with files := [⟨[1, 9], .crc 3, true, true, 0⟩, ⟨[4], .crc 4, false, true, 1⟩] }
      (openNewest exE s2).2 = some ([⟨2, 3⟩, ⟨1, 4⟩], [[1, 9], [4]]) ∧
      receiverAccepts exE [⟨2, 3⟩, ⟨1, 4⟩] [[1, 9], [4]] = false ∧ (reap exE s2).2 = .err) := by decide
+
+/-- the hypotheses of `late_corruption_never_installed_by_sink` are jointly satisfiable: a verified
+two-file store, a header decoder returning the RECORDED sizes and checksums, and C10's sink
+installing the framed stream -/
+def exDecode : Bytes → Option SnapHeader :=
+  fun b => if b = [7] then some ⟨1, .full (some ⟨2, 3⟩) [⟨1, 4⟩]⟩ else none
+
+def exGood : Store := { files := [⟨[1, 2], .crc 3, true, true, 0⟩, ⟨[4], .crc 4, false, true, 1⟩] }
+
+example : ∀ f ∈ chainFiles exGood, ∀ n, f.side = .crc n → ∀ orig, exE.crc orig = n →
+    f.content = orig ∨ Collide exE f.content orig :=
+  late_corruption_never_installed_by_sink exE exGood exDecode [7] (by decide)
+    ⟨[1, 2], .crc 3, true, true, 0⟩ [⟨[4], .crc 4, false, true, 1⟩] (by decide) (by decide) (by decide) false
+    (by decide)
 
 end C12
